@@ -54,7 +54,7 @@ def main(argv):
     if '--merge' in argv and not names:
         names = []
     else:
-        names = names or sorted(d for d in os.listdir(SEEDED) if os.path.isdir(os.path.join(SEEDED, d)))
+        names = names or sorted(d for d in os.listdir(SEEDED) if os.path.isfile(os.path.join(SEEDED, d, 'meta.json')))
     base = '/dev/shm' if os.path.isdir('/dev/shm') else None
     results = {}
     for name in names:
@@ -105,7 +105,7 @@ def main(argv):
             if a.endswith('.log') and os.path.exists(a):
                 for line in open(a):
                     nm, _, rest = line.partition(' ')
-                    if rest.startswith('{') and os.path.isdir(os.path.join(SEEDED, nm)):
+                    if rest.startswith('{') and os.path.isfile(os.path.join(SEEDED, nm, 'meta.json')):
                         row_ = json.loads(rest)
                         if row_.get('tests_pass') is None and allres.get(nm, {}).get('tests_pass') is not None:
                             row_['tests_pass'] = allres[nm]['tests_pass']
@@ -114,7 +114,7 @@ def main(argv):
             if 'tests_pass' not in row_ and 'tests_pass' in allres.get(k_, {}):
                 row_['tests_pass'] = allres[k_]['tests_pass']    # the suite verdict of an earlier --tests run stays valid for the same patch
             allres[k_] = row_
-        results = {k: v for k, v in allres.items() if os.path.isdir(os.path.join(SEEDED, k))}
+        results = {k: v for k, v in allres.items() if os.path.isfile(os.path.join(SEEDED, k, 'meta.json'))}
         json.dump(results, open(rj, 'w'), indent=1, sort_keys=True)
         retired = set(k for k in results if json.load(open(os.path.join(SEEDED, k, 'meta.json'))).get('retired'))
         caught = sum(1 for k, r in results.items() if k not in retired and any(isinstance(v, dict) and v.get('exit') == 1 for v in r.values()))
